@@ -1584,6 +1584,7 @@ fn build_layout(tier: Tier) -> Layout {
         ("bytes-non-ascii", pow_sum(l.byte_na_alphabet.len(), l.byte_na_len)),
         ("symbol", pow_sum(l.name_alphabet.len(), l.name_len)),
         ("identifier", pow_sum(l.name_alphabet.len(), l.name_len)),
+        ("literal-pairs", pair_literals().len() as u64),
     ];
     l
 }
@@ -1646,6 +1647,79 @@ fn radix_of(l: &Layout, i: u64) -> (u32, u32) {
     }
     (ri as u32 + 2, l.radix_vals[ri][(i - l.radix_offsets[ri]) as usize])
 }
+
+
+// ---------------------------------------------------------------------------------------------
+// literal pairs: what a literal denotes must not depend on the literal written before it. Every ordered pair of a
+// small set of literals of every class as a two-item list (space and comma form); each item must read back as the
+// value its spelling denotes alone.
+
+fn pair_literals() -> Vec<(&'static str, V)> {
+    vec![
+        ("5", V::Int(5)),
+        ("5.0", V::Float(5.0)),
+        ("12.5", V::Float(12.5)),
+        ("010_12", V::Int(12)),
+        ("016_ff", V::Int(255)),
+        ("\"ab\"", V::str("ab")),
+        ("\"\"\"x\"\"\"", V::str("x")),
+        ("\"a\\u{41}\"", V::str("aA")),
+        ("\"\"", V::str("")),
+        ("'c'", V::Bytes(vec![b'c'])),
+        ("'xy'", V::Bytes(vec![b'x', b'y'])),
+        ("'''7'''", V::Bytes(vec![7])),
+        ("''", V::Bytes(vec![])),
+        (":sym", V::sym("sym")),
+        ("()", V::Unit),
+        ("$?", V::True),
+    ]
+}
+
+fn pair_program(ai: usize, bi: usize, comma: bool) -> (String, V) {
+    let l = pair_literals();
+    let src = if comma { format!("{}, {}", l[ai].0, l[bi].0) } else { format!("{} {}", l[ai].0, l[bi].0) };
+    (src, V::List(vec![l[ai].1.clone(), l[bi].1.clone()]))
+}
+
+fn pair_verdict<D: Subject>(src: &str, want: &V) -> Option<(String, String)> {
+    match crate::subj::run_program::<D>(src, &V::Unit, Host::none(), 200) {
+        Ok(o) => {
+            let same = match (&o.value, want) {
+                (V::List(a), V::List(b)) if a.len() == b.len() => a.iter().zip(b.iter()).all(|(x, y)| {
+                    x == y
+                        && x.type_of() == y.type_of()
+                        && !matches!((x, y), (V::Int(_), V::Float(_)) | (V::Float(_), V::Int(_)))
+                }),
+                _ => false,
+            };
+            if same { None } else { Some(("literal-in-a-pair-denotes-something-else".into(), o.value.show())) }
+        }
+        Err(f) => Some((format!("literal-pair-rejected[{}]", f.kind()), format!("{:?}", f))),
+    }
+}
+
+fn run_pair_row(cx: &mut Ctx, ai: usize) {
+    let n = pair_literals().len();
+    for bi in 0..n {
+        for comma in [false, true] {
+            let (src, want) = pair_program(ai, bi, comma);
+            for which in 0..2usize {
+                cx.eval();
+                let r = if which == 0 { pair_verdict::<SData>(&src, &want) } else { pair_verdict::<BData>(&src, &want) };
+                match r {
+                    None => cx.nontrivial((src.as_str(), which)),
+                    Some((kind, got)) => {
+                        let cls = |v: &V| format!("{:?}", v.type_of());
+                        let l = pair_literals();
+                        let imp = ["simple", "basic"][which];
+                        cx.violation(&kind, &format!("pair/{}-then-{}/{}", cls(&l[ai].1), cls(&l[bi].1), imp), json!({"mode": "pair", "impl": which, "a": ai, "b": bi, "comma": comma, "src": src, "expected": want.show(), "got": got}));
+                    }
+                }
+            }
+        }
+    }
+}
+
 
 impl Property for C14 {
     fn id(&self) -> &'static str {
@@ -1727,12 +1801,24 @@ impl Property for C14 {
             }
             "symbol" => rp.name_case(false, &decode_seq(&l.name_alphabet, i)),
             "identifier" => rp.name_case(true, &decode_seq(&l.name_alphabet, i)),
+            "literal-pairs" => run_pair_row(rp.cx, i as usize),
             _ => {}
         }
     }
     fn replay(&self, d: &Value, cx: &mut Ctx) {
         quiet_backtraces();
         match d["mode"].as_str().unwrap_or("") {
+            "pair" => {
+                let (ai, bi) = (d["a"].as_u64().unwrap_or(0) as usize, d["b"].as_u64().unwrap_or(0) as usize);
+                let n = pair_literals().len();
+                if ai < n && bi < n {
+                    let (src, want) = pair_program(ai, bi, d["comma"].as_bool().unwrap_or(false));
+                    let r = if d["impl"].as_u64() == Some(0) { pair_verdict::<SData>(&src, &want) } else { pair_verdict::<BData>(&src, &want) };
+                    if let Some((kind, got)) = r {
+                        cx.violation(&kind, &format!("pair/replayed/{}", src), json!({"src": src, "got": got}));
+                    }
+                }
+            }
             "spelling" => {
                 let sp = match Spelling::from_json(&d["spelling"]) {
                     Some(s) => s,
@@ -1799,7 +1885,7 @@ impl Property for C14 {
         let blocks = |b: &Vec<(Vec<char>, usize)>| b.iter().map(|(a, n)| format!("all strings of length <= {} over {:?}", n, a.iter().collect::<String>())).collect::<Vec<_>>().join("; ");
         Meta {
             rule: format!(
-                "one-literal programs on both data implementations. Integers: {} values per radix (0, 1, R-1, R, R+1, R^2-1..R^2+1, 2^k-1..2^k+1 for k=1..30, MAX-1, MAX, digit-pattern values{}) in every radix 2..36 as 0R_digits in upper and lower case, with every subset of single-underscore separator positions for <= {} digits and 4 fixed placements beyond; {} decimal integers likewise; {} out-of-range decimal integers; {} finite non-negative floats (boundaries, powers of two and ten, decimal fractions) in shortest positional form, with a trailing zero, with separators, and `.d` form; {} negative numbers via `--lit` / `0 - lit`. Char lists: {} - each in \"...\" with escapes, with \\u{{..}}, with raw newline/tab, and in 3, 4{} quote forms where the content permits. Byte lists: {} in '...' escaped form (ASCII) and in '''n n''' numeric form (decimal, 02_ binary, 016_ hex{}); quote-form byte lists with non-ASCII characters over {:?} up to length {}. Symbols `:name` and identifiers over {:?} up to length {}. A case is non-trivial when the program was accepted and evaluated to the denoted value (distinct by source text and implementation).",
+                "every ordered pair of 16 literals of all classes as a two-item list (what a literal denotes does not depend on the literal before it); one-literal programs on both data implementations. Integers: {} values per radix (0, 1, R-1, R, R+1, R^2-1..R^2+1, 2^k-1..2^k+1 for k=1..30, MAX-1, MAX, digit-pattern values{}) in every radix 2..36 as 0R_digits in upper and lower case, with every subset of single-underscore separator positions for <= {} digits and 4 fixed placements beyond; {} decimal integers likewise; {} out-of-range decimal integers; {} finite non-negative floats (boundaries, powers of two and ten, decimal fractions) in shortest positional form, with a trailing zero, with separators, and `.d` form; {} negative numbers via `--lit` / `0 - lit`. Char lists: {} - each in \"...\" with escapes, with \\u{{..}}, with raw newline/tab, and in 3, 4{} quote forms where the content permits. Byte lists: {} in '...' escaped form (ASCII) and in '''n n''' numeric form (decimal, 02_ binary, 016_ hex{}); quote-form byte lists with non-ASCII characters over {:?} up to length {}. Symbols `:name` and identifiers over {:?} up to length {}. A case is non-trivial when the program was accepted and evaluated to the denoted value (distinct by source text and implementation).",
                 l.radix_vals[8].len(),
                 if tier == Tier::Thorough { ", R^k-1..R^k+1 for every k, every n <= R^2+R" } else { "" },
                 tier.pick(5, 7),
